@@ -166,6 +166,35 @@ def r12_std_paths(sig, body):
     return sig, body, n
 
 
+def r13_format(sig, body):
+    """R13: format!(…) -> verif_format()  (message text dropped; only used for diagnostics)"""
+    n = 0
+    while True:
+        m = re.search(r'\bformat!\s*\(', body)
+        if not m:
+            break
+        op = m.end() - 1
+        cl = _match_paren(body, op)
+        body = body[:m.start()] + 'verif_format()' + body[cl + 1:]
+        n += 1
+    return sig, body, n
+
+
+def r14_intern(sig, body):
+    """R14: X.vm.new_gc_obj_string(ARG) -> verif_intern(ARG)  (string interning is C11's contract; here only 'some string value')"""
+    n = 0
+    while True:
+        m = re.search(r'\b\w+\.vm\.new_gc_obj_string\s*\(', body)
+        if not m:
+            break
+        op = m.end() - 1
+        cl = _match_paren(body, op)
+        arg = body[op + 1:cl]
+        body = body[:m.start()] + 'verif_intern(%s)' % arg + body[cl + 1:]
+        n += 1
+    return sig, body, n
+
+
 RULES = {
     'R1': r1_error_macro,
     'R3': r3_continue_guard,
@@ -175,6 +204,8 @@ RULES = {
     'R10': r10_cfg,
     'R11': r11_common_prefix,
     'R12': r12_std_paths,
+    'R13': r13_format,
+    'R14': r14_intern,
 }
 
 DESCRIPTIONS = {k: (v.__doc__ or '').strip() for k, v in RULES.items()}
